@@ -24,7 +24,7 @@ TRUSTED = [
   'Kosaraju SCC partition is not modelled: the real partition is executed and its result checked',
 ]
 ASSUMPTIONS = ['self-dependence inside one block (reading a bit the same block writes) is outside the hypotheses (GenDAGPass ignores it)']
-RULE = ('cyclic designs of four kinds (false / convergent / divergent / update_once-in-loop) with 2-4 blocks in the cycle plus upstream and '
+RULE = ('cyclic designs of five kinds (false / convergent pair / convergent ring of 3-4 / divergent / update_once-in-loop) with 2-4 blocks in the cycle plus upstream and '
         'downstream blocks, random operators and widths; a case = (design, pass group); all are non-trivial; distinct by (source, flow)')
 
 def fn1(rng, w, e):
@@ -71,6 +71,18 @@ def gen_cyclic(rng, kind):
       blk([((out.idx, 0, w), R(c))])
     else:
       blk([((out.idx, 0, w), R(b))])
+    expect = 'value'
+  elif kind == 'ring':
+    # a monotone ring of 3-4 blocks: x0 = x1 op i, x1 = x2 op j, ..., x_{k-1} = x0 op l; converging needs up to k sweeps,
+    # so a watch list that misses one of the variables returns an unstable state for some inputs
+    k = rng.randint(3, 4)
+    xs = [d.new_sig('', f'x{i}', w, 'wire') for i in range(k)]
+    op = rng.choice(['or', 'and'])
+    ins = [i0, i1, d.new_sig('', 'in2', w, 'in'), d.new_sig('', 'in3', w, 'in')]
+    order = list(range(k)); rng.shuffle(order)
+    for i in order:
+      blk([((xs[i].idx, 0, w), ('b', op, w, R(xs[(i + 1) % k]), R(ins[i])))])
+    blk([((out.idx, 0, w), R(xs[0]))])
     expect = 'value'
   elif kind == 'div':
     a = d.new_sig('', 'a', w, 'wire'); b = d.new_sig('', 'b', w, 'wire')
@@ -126,7 +138,7 @@ def run(ck):
   n = 30 if ck.tier == 'quick' else 500
   lines, meta = [], []
   for _ in range(n):
-    kind = rng.choice(['false', 'false', 'conv', 'div', 'divcond'])
+    kind = rng.choice(['false', 'false', 'conv', 'ring', 'ring', 'div', 'divcond'])
     d, expect = gen_cyclic(rng, kind)
     src = d.source()
     cls = rtlgen.load_class(ck.workdir, d)
@@ -162,7 +174,7 @@ def run(ck):
           for blk in comb_blks:
             blk()
             if rs.read_all() != a:
-              ck.violation('returned-unstable-state', {'flow': flow, 'kind': kind}, {'source': src, 'flow': flow, 'inputs': cycles[:k + 1]},
+              ck.violation('returned-unstable-state', {'flow': flow, 'kind': kind}, {'source': src, 'flow': flow, 'inputs': cycles[:k + 1], 'signals': [s_.path for s_ in d.sigs]},
                            {'block': blk.__name__, 'before': a, 'after': rs.read_all(), 'signals': [s.path for s in d.sigs]})
               break
           rs.top.sim_tick()
@@ -171,7 +183,7 @@ def run(ck):
           if refsim is not None:
             ra, rb = refsim.cycle(ins)
             if (a, b) != (ra, rb):
-              ck.violation('false-loop-differs-from-acyclic', {'flow': flow}, {'source': src, 'flow': flow, 'inputs': cycles[:k + 1]},
+              ck.violation('false-loop-differs-from-acyclic', {'flow': flow}, {'source': src, 'flow': flow, 'inputs': cycles[:k + 1], 'signals': [s_.path for s_ in d.sigs]},
                            {'impl': (a, b), 'ref': (ra, rb), 'signals': [s.path for s in d.sigs],
                             'oracle': 'a false loop must evaluate to the values of the equivalent acyclic design'})
           if sweeps > 100:
@@ -180,10 +192,10 @@ def run(ck):
           status = ('cyclic', k); break
       will_diverge = (kind == 'div') or (kind == 'divcond' and any(dict(c)[1] & 1 for c in cycles))
       if kind == 'div' and status == 'ok':
-        ck.violation('divergent-loop-returned', {'flow': flow}, {'source': src, 'flow': flow, 'inputs': cycles},
+        ck.violation('divergent-loop-returned', {'flow': flow}, {'source': src, 'flow': flow, 'inputs': cycles, 'signals': [s_.path for s_ in d.sigs]},
                      {'trace': trace[:2], 'oracle': 'a loop with no stable assignment must raise UpblkCyclicError'})
-      if kind in ('false', 'conv') and status != 'ok':
-        ck.violation('convergent-loop-rejected', {'flow': flow, 'kind': kind}, {'source': src, 'flow': flow, 'inputs': cycles}, {'status': status})
+      if kind in ('false', 'conv', 'ring') and status != 'ok':
+        ck.violation('convergent-loop-rejected', {'flow': flow, 'kind': kind}, {'source': src, 'flow': flow, 'inputs': cycles, 'signals': [s_.path for s_ in d.sigs]}, {'status': status})
       lines.append(rtlgen.model_sim_line(d, entries, [], cycles))
       meta.append(('sim', d, src, flow, entries, cycles, trace, status))
       e = next(e for e in entries if e[0] == 'scc')
@@ -199,10 +211,10 @@ def run(ck):
     got = rtlgen.parse_sim_reply(rep)
     if isinstance(got, tuple):
       if status == 'ok' or status[1] != got[1]:
-        ck.disagreement('Model iterate≈SCC wrapper', {'source': src, 'flow': flow, 'entries': entries, 'inputs': cycles}, rep, str(status))
+        ck.disagreement('Model iterate≈SCC wrapper', {'source': src, 'flow': flow, 'entries': entries, 'inputs': cycles, 'signals': [s_.path for s_ in d.sigs]}, rep, str(status))
     else:
       if status != 'ok' or got != trace:
-        ck.disagreement('Model iterate≈SCC wrapper', {'source': src, 'flow': flow, 'entries': entries, 'inputs': cycles}, got[:3], [status, trace[:3]])
+        ck.disagreement('Model iterate≈SCC wrapper', {'source': src, 'flow': flow, 'entries': entries, 'inputs': cycles, 'signals': [s_.path for s_ in d.sigs]}, got[:3], [status, trace[:3]])
   # loops containing an update_once block
   import importlib.util, os
   for i in range(2 if ck.tier == 'quick' else 6):
@@ -225,5 +237,5 @@ def run(ck):
   ck.extra_cov['designs'] = n
 
 def replay(ck, data):
-  print(data['case'].get('source', '')); print(data['detail'])
-  return 1
+  print(data.get('kind'), data.get('signature')); print(str(data.get('detail'))[:1500])
+  return rtlgen.replay_source(ck, data.get('case') or {})
